@@ -14,7 +14,7 @@ LEVEL = "exploration"
 WORKERS = {"quick": 8, "thorough": 16}
 BUDGET = {"quick": 150, "thorough": 400}
 MIN_NONTRIVIAL = {"quick": 4000, "thorough": 100000}
-REQUIRED_HOOKS = ["compound", "shared-environment", "IntType.__add__", "IntType.__truediv__", "IntType.__mod__", "IntType.__neg__", "UintType.__sub__", "UintType.__neg__", "DoubleType.__truediv__", "evaluate:I", "evaluate:C", "direct"]
+REQUIRED_HOOKS = ["compound", "nested-form", "shared-environment", "IntType.__add__", "IntType.__truediv__", "IntType.__mod__", "IntType.__neg__", "UintType.__sub__", "UintType.__neg__", "DoubleType.__truediv__", "evaluate:I", "evaluate:C", "direct"]
 RULE = (
     "Operand pairs from a boundary x boundary grid (MIN, MAX, 0, +-1, 2^k, 2^k+-1 ...; doubles +-0, subnormal, 2^53, +-max, +-inf) plus seeded random pairs, "
     "for + - * / % and unary minus, through (i) direct calls of the celtypes operators, (ii) reflected calls with a plain int/float left operand, "
@@ -609,6 +609,71 @@ def compound(ctx, acc, mon, n):
     mon.path = "?"
 
 
+# ---------------------------------------------------------------- the operators nested in other constructs
+# The same applications inside a macro body (over elements that are equal for Python but not for CEL: 0.0 / -0.0), in a list or map
+# literal, under ?: and ||: the glue that hands operands and results between constructs must not change them.
+NESTED_FORMS = [
+    ("[x, y].map(v, v {op} z)", [("x", "z"), ("y", "z")], "list"), ("[x, y].map(v, z {op} v)", [("z", "x"), ("z", "y")], "list"), ("[x, y, x].map(v, v {op} z)", [("x", "z"), ("y", "z"), ("x", "z")], "list"),
+    ("[x {op} z, y {op} z]", [("x", "z"), ("y", "z")], "list"), ("{{'a': x {op} z, 'b': y {op} z}}.b", [("x", "z"), ("y", "z")], "last"), ("true ? x {op} z : y {op} z", [("x", "z")], "last"),
+    ("false ? x {op} z : y {op} z", [("y", "z")], "last"), ("[[x, y], [y, x]].map(l, l.map(v, v {op} z))", [("x", "z"), ("y", "z"), ("y", "z"), ("x", "z")], "nested"),
+    ("[x, y].map(v, [v].map(w, w {op} z)[0])", [("x", "z"), ("y", "z")], "list"), ("[y, x].map(v, (v {op} z) {op} z)", None, "chain"),
+]
+
+
+def nested_forms(ctx, acc, mon, n):
+    rnd = ctx.rnd
+    mon.path = "nested"
+    twins = {"double": [(0.0, -0.0), (-0.0, 0.0), (1.0, 1.0), (math.inf, -math.inf)], "int": [(0, 0), (MV.INT_MIN, MV.INT_MAX), (1, -1)], "uint": [(0, 0), (1, MV.UINT_MAX)]}
+    for i in range(n):
+        if ctx.expired():
+            break
+        t = rnd.choice(["double", "double", "int", "uint"])
+        op = rnd.choice(["+", "-", "*", "/"] + ([] if t == "double" else ["%"]))
+        x, y = rnd.choice(twins[t]) if rnd.random() < 0.6 else (pick_value(rnd, t), pick_value(rnd, t))
+        z = pick_value(rnd, t, small=rnd.random() < 0.5)
+        tmpl, apps, shape = NESTED_FORMS[i % len(NESTED_FORMS)]
+        env = {"x": x, "y": y, "z": z}
+        if shape == "chain":
+            exps = []
+            for a in (y, x):
+                e1 = expected(t, op, a, z)
+                exps.append(e1 if e1[0] == "E" else expected(t, op, e1[1], z))
+        else:
+            exps = [expected(t, op, env[a], env[b]) for a, b in apps]
+        src = tmpl.format(op=op)
+        bind = {k: mk(t, v) for k, v in env.items()}
+        for runner in "IC":
+            o = core.api_eval(runner, src, bind, raw=True)
+            acc.hook("evaluate:" + runner)
+            acc.hook("nested-form")
+            acc.evaluations += 1
+            if any(e[0] == "E" for e in exps):
+                ok = o[0] == "E"
+                want = "evaluation error"
+            else:
+                want = [e[1] for e in exps]
+                v = o[-1] if o[0] == "V" else None
+                flat = None
+                if o[0] == "V":
+                    if shape == "last":
+                        flat = [v]
+                        want = want[-1:]
+                    elif shape == "nested":
+                        flat = [w for l in v for w in l] if isinstance(v, list) else None
+                    else:
+                        flat = list(v) if isinstance(v, list) else None
+                ok = flat is not None and len(flat) == len(want) and all(not isinstance(g, bool) and isinstance(g, (int, float)) and same_num(t, g, w) for g, w in zip(flat, want))
+            acc.cell(t, "nested", shape, runner, "ok" if ok else "differ")
+            acc.nt([t, op, src, enc(t, x), enc(t, y), enc(t, z)])
+            if not ok:
+                acc.violation(
+                    f"{t} {op} nested {shape} {runner} obs={'error' if o[0] == 'E' else ('value' if o[0] == 'V' else 'X:' + str(o[2]))} exp={'error' if want == 'evaluation error' else 'value'}",
+                    f"[nested:{runner}] {t}: {src!r} with x={x!r} y={y!r} z={z!r} gave {core.jkey(o[:2])[:120]}, expected {want!r:.120}",
+                    {"nested": True, "t": t, "src": src, "env": {k: enc(t, v) for k, v in env.items()}, "runner": runner},
+                )
+    mon.path = "?"
+
+
 def tree_enc(tree, t):
     if tree[0] == "var":
         return ["var", tree[1]]
@@ -673,6 +738,7 @@ def run(ctx):
     mon = Monitor(acc)
     mon.install()
     compound(ctx, acc, mon, ctx.scale(16000, 400000))
+    nested_forms(ctx, acc, mon, ctx.scale(8000, 200000))
     k = 0
     expr_every_grid = 9 if not ctx.thorough else 3
     for t, op, a, b, grid in cases(ctx):
@@ -708,6 +774,11 @@ def replay(case):
     import random
 
     rnd = random.Random(0)
+    if case.get("nested"):
+        t = case["t"]
+        out = core.api_eval(case["runner"], case["src"], {k: mk(t, dec(t, v)) for k, v in case["env"].items()})
+        hooks.remove_all()
+        return True, f"{case['src']!r} with {case['env']} under {case['runner']}: {out}"
     if case.get("compound"):
         t = case["t"]
         tree = tree_dec(case["tree"], t)
